@@ -14,6 +14,8 @@ def check(ctx, prog):
     model.rule_constants(ctx, prog, want=("status",))
     propagators.rule_enforce_entail(ctx, prog)
     propagators.rule_mirror_entail(ctx, prog)
+    propagators.rule_entail_guard(ctx, prog)
+    propagators.rule_vector_width(ctx, prog)
     engine.rule_wakeup(ctx, prog)
     engine.rule_writeback(ctx, prog, want=("R-FLAGS-WRITERS",))
     search.rule_solve_one(ctx, prog, want=("R-HANDOVER",))
